@@ -376,6 +376,11 @@ func init() {
 	// C12's clause "rejecting or losing a connection at any stage never stops
 	// a dialer from redialling" is decided by the same runs
 	register(&Scenario{Name: "dialer-keeps-redialling", Prop: "C12", Horizon: 2 * time.Hour, Weight: 4, Run: c14Run})
+	// C13: the dialling side of the pipe lifecycle (Attaching / Attached /
+	// Detached per connection, ids, the protocol told once each) and "its dialer
+	// carries on redialling" after a pipe was refused by the hook, by the
+	// protocol or lost - the same runs, judged by the lifecycle automaton too
+	register(&Scenario{Name: "pipe-lifecycle-dialer", Prop: "C13", Horizon: 2 * time.Hour, Weight: 8, Run: c14Run})
 	// C19: the reconnect options "take effect as documented" (MaxReconnectTime
 	// is a ceiling, ReconnectTime the floor and the value after a success)
 	register(&Scenario{Name: "reconnect-options-effective", Prop: "C19", Horizon: 2 * time.Hour, Weight: 6, Run: c14Run})
